@@ -62,6 +62,7 @@ def check_mut(run, A):
     entries = public_callables(A.prog, SCOPE_MODULES_C20)
     run.floor('public callables under R-MUT', len(entries), 120)
     n_effects = 0
+    global_seen = set()
     for fn in entries:
         try:
             ctx = ev.entry(fn)
@@ -72,6 +73,16 @@ def check_mut(run, A):
         for c in ctx_tree(ctx):
             for (e, tv, _v) in c.effects:
                 kind, node = effect_desc(e)
+                # module-level objects (caches, registries) mutated by a call: hidden state shared by all later calls / objects
+                for a in tv.alias:
+                    if a and a[0] == 'global':
+                        key = (a[1], a[2], c.fn.qual)
+                        if key not in global_seen:
+                            global_seen.add(key)
+                            run.violation('R-STATE', f'{c.fn.qual} mutates module-level object {a[2]}', c.fn.loc(node),
+                                          f'`{norm_stmt(node) if node is not None else kind}` writes into the module global `{a[1]}.{a[2]}`: results depend on the history of earlier calls '
+                                          f'(e.g. a cache keyed on part of the configuration is shared between objects)',
+                                          construct=f'R-STATE::{c.fn.qual}::global-mutation::{a[2]}', path=c.chain())
                 if kind.startswith('container'):
                     continue
                 n_effects += 1
